@@ -98,3 +98,30 @@ func TestFoldVsEval(t *testing.T) {
 		}
 	}
 }
+
+// math.Trunc as a bit-vector function must agree with the hardware on every class of input.
+func TestTruncEncoding(t *testing.T) {
+	x := &Exec{f: NewTermFactory()}
+	fr := &frame{x: x}
+	v := x.f.Var("v", 64)
+	tr := inTrunc(fr, []Value{v}).(*Term)
+	vals := []uint64{0, 1 << 63, 0x7ff0000000000000, 0xfff0000000000000, 0x7ff8000000000001, 1, 0x000fffffffffffff,
+		math.Float64bits(0.5), math.Float64bits(-0.5), math.Float64bits(0.999999), math.Float64bits(1), math.Float64bits(-1), math.Float64bits(1.5),
+		math.Float64bits(-2.75), math.Float64bits(4503599627370495.5), math.Float64bits(4503599627370496), math.Float64bits(9007199254740993),
+		math.Float64bits(1e21), math.Float64bits(-1e300), math.Float64bits(16777215.5), math.Float64bits(123456.789)}
+	r := rand.New(rand.NewSource(2))
+	for i := 0; i < 2000; i++ {
+		vals = append(vals, r.Uint64())
+		vals = append(vals, math.Float64bits((r.Float64()-0.5)*math.Pow(2, float64(r.Intn(70)))))
+	}
+	for _, b := range vals {
+		got, ok := x.f.Eval(tr, newModel(map[string]uint64{"v": b}))
+		if !ok {
+			t.Fatalf("cannot evaluate")
+		}
+		want := math.Float64bits(math.Trunc(math.Float64frombits(b)))
+		if got != want {
+			t.Fatalf("Trunc(%#x): encoding %#x, hardware %#x", b, got, want)
+		}
+	}
+}
